@@ -376,4 +376,10 @@ theorem search_steps_write_nothing_shared (nw : Nat) (c c' : ConcIndex.Cfg) (s :
   intro hch
   cases s <;> simp_all
 
+
+/-- a removed vertex keeps its own edge sets: an operation that already stands on it (it read it as
+entry point) goes on through them to live vertices — what `searchVisit` of the model allows
+(regenerated; seeded change C13-E clears them "to help the garbage collector") -/
+theorem remove_keeps_the_removed_vertex_edges : Generated.removeKeepsTheRemovedVertexEdges = true := by decide
+
 end Anndb.C13
